@@ -1,12 +1,16 @@
 (* C13 — read-only operations never change the graph, even when a user callback raises.
    PARTIAL.  In the Coq model the only read-only entry point with a write effect is neighbors()
-   (it fills the memo); for it the theorems below cover every fault point of the filter callback.
-   The traversals / searches / renderers of the model are pure functions of the heap, so for them
-   "leaves the graph unchanged" is true by construction of the model; that the Python functions
-   have no OTHER effect (e.g. temporary attributes) is exactly what the fault-point enumeration on
-   the implementation decides (harness leg `faults`, complete per generated case).
-   Statements only; proofs in FaultsProofs.v. *)
+   (it fills the memo); for it the theorems below cover every fault point of the filter callback,
+   and (second half of the file) for the three traversals and three searches RUN THROUGH THE MEMO
+   with a callback that may raise at any invocation (TravFaults.v): the graph is as before however
+   the call ends, and the repeated call with the callback behaving answers as on the original heap.
+   The renderers of the model are pure functions of the heap, so for them "leaves the graph
+   unchanged" is true by construction of the model; that the Python functions have no OTHER effect
+   (e.g. temporary attributes) is exactly what the fault-point enumeration on the implementation
+   decides (harness leg `faults`, complete per generated case).
+   Statements only; proofs in FaultsProofs.v and TravFaultsProofs.v. *)
 From EG Require Import Base State Nbrs Struct Cache Faults FaultsProofs.
+From EG Require Import Trav TravState TravCached TravCachedProofs TravFaults TravFaultsProofs.
 
 (* a neighbors() query never changes the observable graph, whatever the callback does *)
 Theorem C13_query_never_changes_the_graph : forall filtf s v d u f s' r, neighbors_cf filtf s v d u f = (s', r) ->
@@ -39,6 +43,58 @@ Theorem C13_fault_points_are_the_invocations : forall filtf s v d u f,
   exists l o fid, f = Some fid /\ In (l, o) (invocations filtf s v d u f) /\ filtf fid l o = None.
 Proof. exact boom_iff_some_invocation_raises. Qed.
 
+(* ---- traversals and searches through the memo, with an ff_via callback that may raise ---- *)
+(* whatever the callback does and however the call ends (normally, with the callback's exception, with
+   the loop's own exception, even out of fuel): every field of the heap but the memo is as before *)
+Theorem C13_faulty_traversals_leave_the_graph_unchanged : forall filtf d u fv uni fr m fuel s start,
+  same_graph s (fst (bft_st state (nbs_cf filtf d u fv) uni fr fuel s start)) /\
+  same_graph s (fst (dft_rec_st state (nbs_cf filtf d u fv) uni fr fuel s start)) /\
+  same_graph s (fst (dft_iter_st state (nbs_cf filtf d u fv) uni fr fuel s start)) /\
+  same_graph s (fst (bfs_st state (nbs_cf filtf d u fv) uni m fuel s start)) /\
+  same_graph s (fst (dfs_rec_st state (nbs_cf filtf d u fv) uni m fuel s start)) /\
+  same_graph s (fst (dfs_iter_st state (nbs_cf filtf d u fv) uni m fuel s start)).
+Proof. exact faulty_traversals_leave_the_graph_unchanged. Qed.
+(* the memo entries written before the fault are truthful: the heap left behind is coherent for the
+   behaving callback (filt answers what filtf answers wherever filtf answers at all) *)
+Theorem C13_faulty_traversals_keep_the_memo_coherent : forall filtf filt d u fv uni fr m fuel s start,
+  refines filtf filt -> wf s -> Coh filt s ->
+  (let s' := fst (bft_st state (nbs_cf filtf d u fv) uni fr fuel s start) in wf s' /\ Coh filt s') /\
+  (let s' := fst (dft_rec_st state (nbs_cf filtf d u fv) uni fr fuel s start) in wf s' /\ Coh filt s') /\
+  (let s' := fst (dft_iter_st state (nbs_cf filtf d u fv) uni fr fuel s start) in wf s' /\ Coh filt s') /\
+  (let s' := fst (bfs_st state (nbs_cf filtf d u fv) uni m fuel s start) in wf s' /\ Coh filt s') /\
+  (let s' := fst (dfs_rec_st state (nbs_cf filtf d u fv) uni m fuel s start) in wf s' /\ Coh filt s') /\
+  (let s' := fst (dfs_iter_st state (nbs_cf filtf d u fv) uni m fuel s start) in wf s' /\ Coh filt s').
+Proof. exact faulty_traversals_keep_the_memo_coherent. Qed.
+(* "repeating the call with a well-behaved callback gives the normal answer": on the heap s' left by ANY
+   of the six entry points run with a raising callback, every traversal, search and neighbors() call with
+   the callback behaving answers exactly as on the original heap s *)
+Theorem C13_retry_after_faulty_call_gives_the_normal_answer : forall filtf filt s s',
+  refines filtf filt -> wf s -> Coh filt s -> after_faulty_call filtf s s' ->
+  forall ou start d u fv fr m fuel,
+  snd (bft_st state (nbs_c filt d u fv) (t_uni s' ou) fr fuel s' start)
+    = snd (bft_st state (nbs_c filt d u fv) (t_uni s ou) fr fuel s start) /\
+  snd (dft_rec_st state (nbs_c filt d u fv) (t_uni s' ou) fr fuel s' start)
+    = snd (dft_rec_st state (nbs_c filt d u fv) (t_uni s ou) fr fuel s start) /\
+  snd (dft_iter_st state (nbs_c filt d u fv) (t_uni s' ou) fr fuel s' start)
+    = snd (dft_iter_st state (nbs_c filt d u fv) (t_uni s ou) fr fuel s start) /\
+  snd (bfs_st state (nbs_c filt Fwd UErr None) (t_uni s' ou) m fuel s' start)
+    = snd (bfs_st state (nbs_c filt Fwd UErr None) (t_uni s ou) m fuel s start) /\
+  snd (dfs_rec_st state (nbs_c filt Fwd UErr None) (t_uni s' ou) m fuel s' start)
+    = snd (dfs_rec_st state (nbs_c filt Fwd UErr None) (t_uni s ou) m fuel s start) /\
+  snd (dfs_iter_st state (nbs_c filt Fwd UErr None) (t_uni s' ou) m fuel s' start)
+    = snd (dfs_iter_st state (nbs_c filt Fwd UErr None) (t_uni s ou) m fuel s start) /\
+  snd (neighbors_c filt s' start d u fv) = snd (neighbors_c filt s start d u fv).
+Proof. exact retry_after_faulty_call_gives_the_normal_answer. Qed.
+(* a callback that never raises: the faulty model IS the ordinary one (heap and result) *)
+Theorem C13_calm_callback_is_the_ordinary_traversal : forall filt d u fv uni fr m fuel s start,
+  bft_st state (nbs_cf (calm filt) d u fv) uni fr fuel s start = bft_st state (nbs_c filt d u fv) uni fr fuel s start /\
+  dft_rec_st state (nbs_cf (calm filt) d u fv) uni fr fuel s start = dft_rec_st state (nbs_c filt d u fv) uni fr fuel s start /\
+  dft_iter_st state (nbs_cf (calm filt) d u fv) uni fr fuel s start = dft_iter_st state (nbs_c filt d u fv) uni fr fuel s start /\
+  bfs_st state (nbs_cf (calm filt) d u fv) uni m fuel s start = bfs_st state (nbs_c filt d u fv) uni m fuel s start /\
+  dfs_rec_st state (nbs_cf (calm filt) d u fv) uni m fuel s start = dfs_rec_st state (nbs_c filt d u fv) uni m fuel s start /\
+  dfs_iter_st state (nbs_cf (calm filt) d u fv) uni m fuel s start = dfs_iter_st state (nbs_c filt d u fv) uni m fuel s start.
+Proof. exact calm_callback_is_the_ordinary_traversal. Qed.
+
 Print Assumptions C13_query_never_changes_the_graph.
 Print Assumptions C13_raising_callback_changes_nothing.
 Print Assumptions C13_raising_lookup_changes_nothing.
@@ -47,3 +103,8 @@ Print Assumptions C13_memo_stays_coherent.
 Print Assumptions C13_well_behaved_callback_is_ordinary.
 Print Assumptions C13_fault_points_are_the_invocations.
 Print Assumptions fault_example.
+Print Assumptions C13_faulty_traversals_leave_the_graph_unchanged.
+Print Assumptions C13_faulty_traversals_keep_the_memo_coherent.
+Print Assumptions C13_retry_after_faulty_call_gives_the_normal_answer.
+Print Assumptions C13_calm_callback_is_the_ordinary_traversal.
+Print Assumptions faulty_traversal_example.
